@@ -57,7 +57,13 @@ type Case struct {
 	HoldUs        int            `json:"hold_us,omitempty"`         // the execution logger's Error takes this long: a failed run stays in flight
 	CloserDelayUs int            `json:"closer_delay_us,omitempty"` // every closeSubscription call is delayed at its entry (hook H6)
 	RerunDelayUs  int            `json:"rerun_delay_us,omitempty"`  // reactive.WriteThenReadDelay: an unsubscribe / close may land between invalidation and re-run
+	// ConnOpts: the less common connection options. bit 0: WithAlwaysSpawnGoroutineFunc(true)
+	// (every re-run on a fresh goroutine), bit 1: WithMakeCtx (a derived context per run),
+	// bit 2: WithMinRerunIntervalFunc instead of WithMinRerunInterval, bit 3: WithMutationSchema
+	ConnOpts int `json:"conn_opts,omitempty"`
 }
+
+type makeCtxKey struct{}
 
 // closerDelay (nanoseconds) is read by the hook installed once in init: goroutines of an
 // earlier run may still pass the yield point when the next run starts.
@@ -326,8 +332,21 @@ func Run(c Case) (res Result, sig string, err error) {
 	lg := &subLogger{st: st}
 	ctx, cancel := context.WithCancel(context.Background())
 	defer cancel()
-	conn := graphql.CreateConnection(ctx, sock, b.Schema, graphql.WithMinRerunInterval(0), graphql.WithSubscriptionLogger(lg),
-		graphql.WithMaxSubscriptions(c.MaxSubs), graphql.WithExecutionLogger(execLogger{hold: time.Duration(c.HoldUs) * time.Microsecond}), graphql.WithExecutor(graphql.NewExecutor(sched.New(c.Sched, 11))))
+	copts := []graphql.ConnectionOption{graphql.WithMinRerunInterval(0), graphql.WithSubscriptionLogger(lg),
+		graphql.WithMaxSubscriptions(c.MaxSubs), graphql.WithExecutionLogger(execLogger{hold: time.Duration(c.HoldUs) * time.Microsecond}), graphql.WithExecutor(graphql.NewExecutor(sched.New(c.Sched, 11)))}
+	if c.ConnOpts&1 != 0 {
+		copts = append(copts, graphql.WithAlwaysSpawnGoroutineFunc(func(context.Context, *graphql.Query) bool { return true }))
+	}
+	if c.ConnOpts&2 != 0 {
+		copts = append(copts, graphql.WithMakeCtx(func(ctx context.Context) context.Context { return context.WithValue(ctx, makeCtxKey{}, true) }))
+	}
+	if c.ConnOpts&4 != 0 {
+		copts = append(copts, graphql.WithMinRerunIntervalFunc(func(context.Context, *graphql.Query) time.Duration { return 0 }))
+	}
+	if c.ConnOpts&8 != 0 {
+		copts = append(copts, graphql.WithMutationSchema(b.Schema))
+	}
+	conn := graphql.CreateConnection(ctx, sock, b.Schema, copts...)
 	conn.Use(func(in *graphql.ComputationInput, next graphql.MiddlewareNextFunc) *graphql.ComputationOutput {
 		st.mu.Lock()
 		g := st.gen[in.Id]
@@ -859,6 +878,9 @@ func Gen(t *rapid.T, lifecycle bool) Case {
 		c.Texts = append(c.Texts, q.Text())
 	}
 	c.MaxSubs = 10
+	if rapid.IntRange(0, 2).Draw(t, "hasconnopts") == 0 {
+		c.ConnOpts = rapid.IntRange(1, 15).Draw(t, "connopts")
+	}
 	ids := []string{"a", "b", "c", "d"}
 	if lifecycle {
 		c.MaxSubs = rapid.IntRange(1, 3).Draw(t, "maxsubs")
